@@ -15,6 +15,12 @@ Evaluators
   guesses    generate_initial_guesses on all orderings of <=5 scripted draws x all n_guesses<=prior_samples
   guesses_big  the same with prior_samples in {200, 1000} (stride-permuted quantile draws) x n_guesses in {1, 2, 50, 100, 199, 200, 300, 999, 1000}:
              the n_guesses best draws, in increasing cost (guesses-big/not-in-increasing-cost, ../not-the-best-draws, ../guess-is-not-a-prior-draw, ...)
+  reuse      object-reuse histories: components (from caller-held index lists / arrays) -> stand-alone use -> JointPrior -> stand-alone use -> second /
+             third / fourth JointPrior from the SAME objects (same, reversed, rotated order) -> JointPriors from a subset of the objects plus a new
+             component -> Posteriors; after every step every object built so far gives exactly what a freshly built equal object gives
+             (reuse/<class>/<quantity>-differs-from-fresh-equal-object-after/<step>), the caller's lists / arrays are unchanged
+             (reuse/caller-index-list-modified-after/<step>, reuse/caller-hyper-parameter-array-modified-after/<step>, reuse/caller-component-list-modified-after/<step>),
+             a construction from re-used objects that raises is reuse/<label>/raises:<Type>; at the end also against the reference (reuse/<class>/at-end-of-history/..)
 """
 import itertools
 
